@@ -14,6 +14,22 @@ NUMERIC = ("i8", "i16", "i32", "i64", "i128", "isize", "u8", "u16", "u32", "u64"
 FLOOR_SINKS = 6
 
 
+def _untuple(b, e):
+    """`match (&a, &b, &c) { args => .. args.0 .. }` (format! with three or more values): field i of a tuple literal is its
+    i-th component"""
+    for _ in range(4):
+        x = strip_sites(e)
+        if x[0] == "field" and isinstance(x[1], int):
+            inner = b.expand_vars(strip_sites(x[2]))
+            while inner[0] == "deref" if isinstance(inner, tuple) and inner else False:
+                inner = inner[1]
+            if inner[0] == "agg" and inner[1] == "tuple" and x[1] < len(inner[2]):
+                e = inner[2][x[1]]
+                continue
+        break
+    return e
+
+
 def run(ctx):
     ctx.rule("R18-1", "no string reaches SQL text through format! unless it is a literal, numeric, quote-doubled "
                       "(replace(\"'\", \"''\")), the configured table name, or the Uuid-derived session id")
@@ -84,7 +100,7 @@ def sql_rule(ctx, crate):
                 arg_ty = b.term(site)["args"][0]
                 pl = arg_ty.get("move") or arg_ty.get("copy") or {}
                 ty = pl.get("ty", "").replace("&", "").strip()
-                val = pc[2][0]
+                val = _untuple(b, pc[2][0])
                 if ty in NUMERIC:
                     continue
                 # the SQL being extended (sql = format!("{} AND ..", sql)) is judged by its own pieces
@@ -99,6 +115,10 @@ def sql_rule(ctx, crate):
                         flow.backward(b, val, lambda z: z[0] in ("param", "field") and False) is None and is_quote_doubling(pv):
                     continue
                 if pv[0] == "call" and last_seg(pv[1]) == "get_history_table":
+                    continue
+                # a local chosen among literals (`let order = if asc { "ORDER BY tsb" } else { "order by tsb desc" }`)
+                if pv[0] == "var" and b.defs.get(pv[1]) and all(
+                        const_str(mir.peel(strip_sites(b.def_expr(bi, si)))) is not None for bi, si in b.defs.get(pv[1], [])):
                     continue
                 if pv[0] == "field" and mir.field_name(pv) == "session_id":
                     continue
